@@ -365,6 +365,54 @@ STRATEGY_WRAPPERS = [
 ]
 
 
+def g2_scopeless_operations(ctx: Ctx):
+    """The context analysis records every operation under the scope whose context rounds it -- except one in the header
+    of a `with` (`with fp.MPFixedContext(n - 1):`), which is evaluated exactly and recorded under none (`_visit_context`
+    does not visit the context expression).  `find_scope_from_use` raises KeyError for such an operation, so a pass
+    that asks for the scope of every operation it meets must ask in a way that answers: the two scope questions of the
+    rounding passes are evaluated, from their source, on an operation with a scope of each kind and on one without."""
+    from ..minipy import Interp, Obj
+    CU = 'fpy2/analysis/context_use.py'
+    vc = ctx.fn(CU, '_ContextUseInstance._visit_context') if ctx.repo.has_func(CU, '_ContextUseInstance._visit_context') else None
+    if vc is None:
+        raise ShapeError('_visit_context of the context analysis not found')
+    visits_header = any(call_name(k) in ('self._visit_expr',) and k.args and norm(k.args[0]) == 'stmt.ctx' for k in calls_in(vc))
+    ctx.note('the context analysis ' + ('records' if visits_header else 'does not record') + ' the operations of a with header under a scope')
+    fs = ctx.fn(CU, 'ContextUseAnalysis.find_scope_from_use')
+    raises = any(isinstance(n, ast.Raise) for n in ast.walk(fs))
+
+    class NoScope(Exception):
+        pass
+
+    def mk_ctx_use(table):
+        def find(e):
+            if e in table:
+                return table[e]
+            raise NoScope()
+        return Obj('ContextUseAnalysis', use_to_scope=table, find_scope_from_use=find)
+    REAL, FP = Obj('Context', label='REAL'), Obj('Context', label='FP64')
+    op_real, op_fp, op_sym, op_none = (Obj('Add', label=l) for l in ('under REAL', 'under FP64', 'under a symbolic scope', 'in a with header'))
+    table = {op_real: Obj('ContextScope', ctx=REAL), op_fp: Obj('ContextScope', ctx=FP), op_sym: Obj('ContextScope', ctx=Obj('NamedId'))}
+    for rel, q, want in ((RINS, 'ExactScopes.is_exact', {op_real: True, op_fp: False, op_sym: False, op_none: False}),
+                         (RELIM, '_RoundElimInstance._resolved_ctx', {op_real: REAL, op_fp: FP, op_sym: None, op_none: None})):
+        fn = ctx.fn(rel, q)
+        cls = q.split('.')[0]
+        meths = {n: f for n, (_, _, f) in ctx.repo.methods(rel, cls, inherited=False).items()}
+        for op, w in want.items():
+            me = Obj(cls, ctx_use=mk_ctx_use(table), outer=None, outer_ctx=None)
+            it = Interp({}, meths, self_obj=me, globals_={'REAL': REAL}, is_a=lambda k, c: k == c)
+            try:
+                got: object = it.call_function(fn, [op], bound_self=True)
+            except NoScope:
+                got = 'KeyError'
+            if op is op_none and (visits_header or not raises):
+                ctx.ok(rel, fn, q, f'an operation {op.fields["label"]}: the analysis answers for it')
+                continue
+            ctx.check(got is w or got == w, rel, fn, q, f'an operation {op.fields["label"]}: ' + ('not a candidate' if w in (False, None) else 'its scope\'s context'),
+                      f'answers {got if not isinstance(got, Obj) else got.fields.get("label")}: insert_round, its sites() and refusals() (or RoundElim) fail with KeyError on '
+                      '`with fp.MPFixedContext(n - 1): ...`, the shape float_to_fixed itself produces')
+
+
 def p1_strategy_wrappers(ctx: Ctx):
     repo = ctx.repo
     n = 0
@@ -646,6 +694,7 @@ RULES = [
     Rule('C10.X1', 'block rewriters refuse what they cannot reproduce: unknown context first, class ladders end in Declined', x1_refusal_defaults, 30, 'X,P'),
     Rule('C10.F2', 'random bits are forwarded or stochastic sources refused wherever a context is rebuilt', f2_random_bits, 6, 'F,P'),
     Rule('C10.G1', 'roundings are removed / inserted only under round_is_identity; decision table of round_is_identity', g1_identity_guard, 22, 'G'),
+    Rule('C10.G2', 'the rounding passes answer for an operation the context analysis records under no scope (a with header)', g2_scopeless_operations, 8, 'G'),
     Rule('C10.T2', 'UnfoldSpecial probes the source context for NaN, inf, zero (both signs) and emits the probe results', t2_special_probes, 9, 'T'),
     Rule('C10.S1', 'RoundElim / RoundInsert hoist nothing out of conditionally or repeatedly evaluated positions', hoist_mask_rule(ROUND_HOISTERS, 'C10.S1'), 12, 'S,X'),
     Rule('C10.P1', 'strategy wrappers: with_edits(apply_with_edits(func.ast, where=func.rebase(where)))', p1_strategy_wrappers, 6, 'P'),
@@ -654,6 +703,9 @@ RULES = [
 from ..selftest import Mutant  # noqa: E402
 
 MUTANTS = [
+    Mutant('insert-round-asks-for-a-scope-that-is-not-there', RINS, "        scope = self.ctx_use.use_to_scope.get(e)   # type: ignore[call-overload]\n        if scope is None:\n            # an operation in the header of a `with` is evaluated exactly but\n            # belongs to no scope: there is no block to give it a format in\n            return False\n",
+           "        scope = self.ctx_use.find_scope_from_use(e)   # type: ignore[arg-type]\n", 'C10.G2', 'finding F125 before its repair'),
+    Mutant('elim-round-asks-for-a-scope-that-is-not-there', RELIM, "        scope = self.ctx_use.use_to_scope.get(e)\n        if scope is None:\n            return None\n", "        scope = self.ctx_use.find_scope_from_use(e)\n", 'C10.G2', 'finding F125 before its repair'),
     Mutant('refused-special-left-to-the-rounding', OVERFLOW, "            want = (try_round(self.ctx, pos), try_round(self.ctx, neg))\n", "            want = (try_round(self.ctx, pos), try_round(self.ctx, neg))\n            if want[0] is None and want[1] is None:\n                out.append(None)\n                continue\n", 'C10.T8',
            'seeded change C10e: a bounded float context that refuses the infinities is rewritten to one that saturates them'),
     Mutant('one-sided-refusal-gets-a-branch', OVERFLOW, "            elif want[0] is None or want[1] is None:", "            elif want[0] is None and want[1] is None:", 'C10.T8'),
